@@ -131,8 +131,15 @@ class IncrementalCKY:
         """
         c = self._chart.get(prefix)
         if c is None:
-            c = self._compute_chart(prefix)
-            self._chart[prefix] = c
+            # Fill the cache for the missing prefixes from the shortest to the
+            # longest (no recursion on the prefix, so a cold cache can serve a
+            # long context).
+            n = len(prefix)
+            while n > 0 and prefix[: n - 1] not in self._chart:
+                n -= 1
+            for m in range(n, len(prefix) + 1):
+                p = prefix[:m]
+                self._chart[p] = c = self._compute_chart(p)
         return c
 
     def _compute_chart(self, prefix):
@@ -151,7 +158,7 @@ class IncrementalCKY:
             tmp[0][0][self.cfg.S] = self.nullary
             return tmp
         else:
-            chart = self.chart(prefix[:-1])
+            chart = self._chart[prefix[:-1]]  # cached: `chart` fills prefixes in order
             last_chart = self.extend_chart(chart, prefix)
             return chart + [
                 last_chart
